@@ -11,7 +11,8 @@ import JubakoModel.Model.ContentSpec
 import JubakoModel.Lemmas.Creator
 import JubakoModel.Lemmas.Codec
 import JubakoModel.Lemmas.ContentFile
-import JubakoModel.Lemmas.Funcs
+import JubakoModel.Lemmas.FuncsBytes
+import JubakoModel.Lemmas.FuncsContent
 
 namespace Jubako
 
